@@ -10,8 +10,8 @@ import (
 	charging_datatype "github.com/free5gc/chf/ccs_diameter/datatype"
 	"github.com/free5gc/chf/cdr/cdrFile"
 	"github.com/free5gc/chf/internal/abmf"
-	"github.com/free5gc/chf/internal/rating"
 	chf_context "github.com/free5gc/chf/internal/context"
+	"github.com/free5gc/chf/internal/rating"
 	"github.com/free5gc/chf/pkg/factory"
 	"github.com/free5gc/openapi/models"
 )
@@ -243,7 +243,9 @@ func verifLemmaMul32(a, b uint32) uint64 { return uint64(a * b) }
 // time limits (the clauses are tagged X01, which no check selects); they document the intended contract.
 // One credit-control step of one request: for one rating group with one online used-unit container,
 // no trigger, and both peers answering, the subscriber's money is conserved -
-//   account balance + held reservation  ==  the same sum before  -  unit cost x reported volume
+//
+//	account balance + held reservation  ==  the same sum before  -  unit cost x reported volume
+//
 // in reserve mode and in debit mode, with refund of the unused reservation at final debit.
 // Range limits of the protocol are preconditions: volumes are non-negative and money amounts fit the
 // 32-bit Diameter AVPs that carry them.
@@ -500,4 +502,3 @@ func verifLemmaReserveKnownNeedConservation(req models.ChfConvergedChargingCharg
 func verifLemmaReserveNewNeedConservation(req models.ChfConvergedChargingChargingDataRequest) ([]models.MultipleUnitInformation, bool) {
 	return sessionChargingReservation(req)
 }
-
